@@ -132,6 +132,8 @@ def configs():
 UTF8_SAMPLES = [
     'a,\u00e9\nb', '\u00e9', '\ufeffa,b\nc', '\ufeff', 'a\r\n\u00e9,"\u20ac"', '\u20ac\r\n', '"\U0001d11e\n",a', 'x\U0001d11e\r', '\ufeff#a\nb',
     '"a\r\nb",\u00e9', '\u00e9\r\n\u20ac', '\ufeff"a', '\u00df,#\n#\u00df', '\r\u00e9\n', '\ufeff\r\n\U0001d11e',
+    # valid characters a shortcut validity test might take for damage: the replacement character itself, noncharacters, the last code points
+    'a,\ufffd\nb', '\ufffd', '\uffff,\ud7ff\n\ue000', '\U0010ffff\r\n\ufffd', 'x\ufeffy\n',
 ]
 INVALID_SAMPLES = [[0x61, 0xC3], [0xC3, 0x28], [0xE2, 0x82], [0xE0, 0x80, 0x80], [0xED, 0xA0, 0x80], [0xF0, 0x9D, 0x84], [0xFF, 0x0A, 0x61],
                    [0x61, 0x0A, 0xC3], [0xF4, 0x90, 0x80, 0x80], [0x80], [0x22, 0x0A, 0xC3, 0x28], [0xC0, 0xAF], [0x61, 0x2C, 0xE2, 0x82, 0x0A],
